@@ -226,6 +226,34 @@ Proof.
     intros (n & H & _). discriminate.
 Qed.
 
+(** ** Histories *)
+
+(** With config.Lookup itself in s.lookup, every dial of every history - any
+    sequence of changes of the lookup's answers, of the registry, and of
+    front connections - is routed by the lookup's answer and the registry at
+    that very dial. *)
+Lemma routed_by_lookup_at_dial_time has_lk has_home : forall evs lk reg memo,
+  run_hist is_ip LDirect deployed_rj_steps deployed_dial_steps has_lk has_home lk reg memo evs
+  = spec_hist is_ip deployed_suffixes has_lk has_home lk reg evs.
+Proof.
+  induction evs as [|e r IH]; intros lk reg memo; [reflexivity|].
+  destruct e as [f|g|sni]; cbn [run_hist spec_hist stored_lookup].
+  - apply IH.
+  - apply IH.
+  - rewrite run_host_deployed, IH. reflexivity.
+Qed.
+
+(** A server that remembers successful answers: the name is first answered
+    with endpoint 1, then the lookup refuses it - and the second connection is
+    still handed to endpoint 1; it moves to endpoint 2 - still endpoint 1. *)
+Definition memo_history (d a b : bytes) : list hevent :=
+  [ EvLookup (fun x => if beqb x d then mkLk (Some (mkDest a false [])) false else mkLk None true);
+    EvDial d;
+    EvLookup (fun _ => mkLk None true);
+    EvDial d;
+    EvLookup (fun x => if beqb x d then mkLk (Some (mkDest b false [])) false else mkLk None true);
+    EvDial d ].
+
 (** Generic over emitted lists: if the lookup is followed by a guard that
     fires whenever err != nil and whose body returns a non-nil error, then a
     name for which the lookup returns an error - with or without a *Dest - is
